@@ -48,7 +48,9 @@ pub(crate) fn parse_crate_path(attrs: &[Attribute]) -> Result<TokenStream2, Erro
 
 /// Extract doc comments from attributes.
 ///
-/// Each `#[doc = "..."]` attribute becomes a single comment string.
+/// Each line of a `#[doc = "..."]` attribute becomes a comment string: a `///` line is one
+/// comment, a block doc comment or an attribute written with embedded line ends is one comment
+/// per line (a comment of the IDL ends at the end of its line).
 #[cfg(feature = "introspection")]
 pub(crate) fn extract_doc_comments(attrs: &[Attribute]) -> Vec<String> {
     let mut comments = Vec::new();
@@ -57,20 +59,28 @@ pub(crate) fn extract_doc_comments(attrs: &[Attribute]) -> Vec<String> {
         if attr.path().is_ident("doc") {
             // Try different parsing methods
             if let Ok(lit_str) = attr.parse_args::<syn::LitStr>() {
-                comments.push(lit_str.value());
+                push_doc_lines(&mut comments, &lit_str.value());
             } else if let syn::Meta::NameValue(meta_name_value) = &attr.meta {
                 if let syn::Expr::Lit(syn::ExprLit {
                     lit: syn::Lit::Str(lit_str),
                     ..
                 }) = &meta_name_value.value
                 {
-                    comments.push(lit_str.value());
+                    push_doc_lines(&mut comments, &lit_str.value());
                 }
             }
         }
     }
 
     comments
+}
+
+/// One comment per line of a doc attribute's text (an empty text is one empty comment).
+#[cfg(feature = "introspection")]
+fn push_doc_lines(comments: &mut Vec<String>, text: &str) {
+    for line in text.split('\n') {
+        comments.push(line.strip_suffix('\r').unwrap_or(line).to_string());
+    }
 }
 
 /// Recursively removes all lifetimes from a type.
